@@ -72,6 +72,28 @@ def fresh_modules():
     import ioos_qc  # noqa: F401
 
 
+HIST_TAG = "|history-dependent"
+
+
+def replay_case(mod, case):
+    """mod.replay(case); a case recorded with "_history" first re-executes those earlier cases in the same process
+    (results ignored) - the violation only exists after them - and its signatures carry HIST_TAG."""
+    if isinstance(case, dict) and "_history" in case:
+        for h in case["_history"]:
+            try:
+                mod.replay(h)
+            except Exception:  # noqa: BLE001
+                pass
+        plain = {k: v for k, v in case.items() if k != "_history"}
+        out = []
+        for v in mod.replay(plain):
+            v = dict(v)
+            v["signature"] = v["signature"] + HIST_TAG
+            out.append(v)
+        return out
+    return mod.replay(case)
+
+
 def repo_file():
     import ioos_qc
 
